@@ -363,3 +363,32 @@ def rule_fixpoint_order(ctx, rep):
         diffs = [(key, f"B{blk}", a[key][blk], b[key].get(blk)) for key in a for blk in a[key] if a[key][blk] != b[key].get(blk)]
         rep.check(not diffs and la == lb, rule, name, where, diffs[:4], [], why="block contexts depend on the order in which blocks and subroutines are listed",
                   sample={"program": name, "keys": sorted(a)})
+
+
+def rule_spelled_programs(ctx, rep):
+    rule = "T-SPELL(program)"
+    rep.rule(rule, "whole programs whose integer constants are respelled (hex, octal, pushint, entry-block intcblock + intc_k) go through parse_teal, "
+                   "construct_function and the four analyses with the same per-block contexts as the original")
+    from .fixpoint import analyse
+    from .. import gen
+    where = ctx.path(PT)
+    progs = {"diamond with size and kind checks": PAD_PROGRAMS["diamond with size and kind checks"],
+             "subroutine with a check, called twice": PAD_PROGRAMS["subroutine with a check, called twice"],
+             "fee, size and index checks with a loop": "#pragma version 6\nint 0\nloop:\nint 1\n+\ndup\nint 3\n<\nbnz loop\npop\ntxn Fee\nint 2000\n<=\nassert\nglobal GroupSize\nint 4\n<\nassert\n"
+                                                       "txn GroupIndex\nint 1\n>=\nbz out\nint 1\nreturn\nout:\nint 0\nreturn\n"}
+    for name, src in progs.items():
+        try:
+            base, lines0 = analyse(ctx, src)
+        except PyRaise as e:
+            rep.violation(rule, f"{name}: runs", where, f"RAISES {e.exc} {e.where}", "an analysis")
+            continue
+        for variant in ("hex", "octal", "pushint", "intc"):
+            new = gen.rewrite(src, variant)
+            try:
+                got, lines1 = analyse(ctx, new)
+            except PyRaise as e:
+                rep.violation(rule, f"{name} / {variant}: runs", where, f"RAISES {e.exc} {e.where}", "an analysis")
+                continue
+            diffs = [(key, f"B{b}", got[key].get(b), v) for key in base for b, v in base[key].items() if got.get(key, {}).get(b) != v]
+            rep.check(not diffs and sorted(lines0) == sorted(lines1), rule, f"{name} / {variant}", where, diffs[:4], [],
+                      why="the spelling of an integer constant changes a block context", sample={"program": name, "variant": variant})
